@@ -58,7 +58,7 @@ class Prop(BaseProp):
                     kinds=["function", "macro", "option", "set", "add_test", "ct_add_test", "cpp_class", "cpp_class",
                            "generic", "plain", "block"] + (["dangling"] if idx % 3 == 0 else []))
         mod = b.module(module_doc=rng.random() < 0.4, module_name=rng.choice(["", "modN0Z"]))
-        text = render(mod, Layout(rng, comments=0.1, wild=0.2, case="random"))
+        text = render(mod, Layout(rng, comments=0.1, wild=0.2, case="random", docforms=rng.choice([0.0, 0.0, 0.3])))
         exp = expected_entries(mod)
         res.sig = sig_hash([mod.shape(), constructs])
         res.nontrivial = len(exp) >= 2 and any(c != "paragraph" for c in constructs)
